@@ -41,7 +41,7 @@ type C14Params struct {
 	Runs    []C14Run  `json:"runs"`
 }
 
-var c14Versions = []string{"4.1.0", "4.2.0", "3.3.5", "10.20.30", "4.2.0-rc1", "4.2.0-RC1", "4.2.0-rc.1", "v4.3.0", "4.4.0+build5", "4.5", "5.0.0-dev", "4.0.1-alpha-2"}
+var c14Versions = []string{"4.1.0", "4.2.0", "3.3.5", "10.20.30", "4.2.0-rc1", "4.2.0-RC1", "4.2.0-rc.1", "v4.3.0", "4.4.0+build5", "4.5", "5.0.0-dev", "4.0.1-alpha-2", "4.6.0-rc2+build.7", "4.1.0+20260131.5114f85"}
 
 func shortVersions(v string) []string {
 	all := strings.Join(regexp.MustCompile(`[0-9]+`).FindAllString(v, -1), "")
@@ -184,7 +184,7 @@ func genC14(t *rapid.T, tier string) (*World, any) {
 	w.Put(p.Root+"/README.md", "# OWASP CRS ver.1.0.0\nver:'OWASP_CRS/1.0.0'\n")
 	nr := drawInt(t, 1, 3, "nruns")
 	for i := 0; i < nr; i++ {
-		p.Runs = append(p.Runs, C14Run{Version: pick(t, c14Versions, "v"), Year: pick(t, []string{"2025", "2026", "2031", "1999"}, "y"), Plan: drawPlan(t, fmt.Sprintf("plan%d", i), true)})
+		p.Runs = append(p.Runs, C14Run{Version: pick(t, c14Versions, "v"), Year: pick(t, []string{"2025", "2026", "2031", "1999", "2021"}, "y"), Plan: drawPlan(t, fmt.Sprintf("plan%d", i), true)})
 	}
 	return w, p
 }
@@ -210,13 +210,31 @@ func evalC14(sc *Scenario, sim *Sim) ([]Violation, bool, string) {
 	run := func(r C14Run) Result {
 		return sb.Run(Step{Argv: []string{"chore", "update-copyright", "-v", r.Version, "-y", r.Year}, Cwd: p.Root, Plan: r.Plan})
 	}
-	matches := func(f *C14File, got string, r C14Run) bool {
+	// which reading of "digits of tx.crs_setup_version" the files follow: -1 undecided, 0 all digits of V, 1 digits of major.minor.patch.
+	// The statement does not choose between them, but one reading holds for the whole history.
+	reading, readingRun := -1, -1
+	matches := func(f *C14File, got string, r C14Run, ri int) bool {
 		if p.CRLF {
 			got = strings.ReplaceAll(got, "\r\n", "\n")
 		}
-		for _, short := range shortVersions(r.Version) {
+		hasShort := false
+		for _, sg := range f.Segs {
+			if sg.Kind == "short" {
+				hasShort = true
+			}
+		}
+		shorts := shortVersions(r.Version)
+		for k, short := range shorts {
 			want := f.render(r.Version, r.Year, short)
 			if got == want || got == want+"\n" {
+				if hasShort && len(shorts) > 1 {
+					if reading >= 0 && reading != k {
+						add("markers-after-run", "setup-version-reading-changes", fmt.Sprintf("run %d (-v %s) writes tx.crs_setup_version=%s in %s, run %d (-v %s) followed the other reading (all digits of V / digits of major.minor.patch): the number is not one function of V",
+							ri, r.Version, short, f.Path, readingRun, p.Runs[readingRun].Version), "")
+					} else if reading < 0 {
+						reading, readingRun = k, ri
+					}
+				}
 				return true
 			}
 		}
@@ -232,7 +250,7 @@ func evalC14(sc *Scenario, sim *Sim) ([]Violation, bool, string) {
 		for fi := range p.Files {
 			f := &p.Files[fi]
 			got := string(sb.MustRead(f.Path))
-			if !matches(f, got, r) {
+			if !matches(f, got, r, i) {
 				prev := p.Initial.Version
 				if i > 0 {
 					prev = p.Runs[i-1].Version
@@ -283,7 +301,7 @@ func versionClass(v string) string {
 func init() {
 	register(&Property{
 		ID: "C14", Level: "exploration",
-		Rule: "scenario = 1-4 .conf / .example files rendered from a template whose marker slots the driver knows (header line in both product spellings, copyright end year in both spellings, ver:'OWASP_CRS/..', SecComponentSignature, tx.crs_setup_version; each 0-n times, two on one line; near-miss lines that are no markers; missing final newline; sometimes one of them a symbolic link to a differently named file inside the root) showing an initial version, x histories of 1-3 invocations with independent versions from the accepted spellings (x.y.z, -rc1, -RC1, -rc.1, v prefix, +build, x.y, -dev, multi-dash) and four-digit years, each under a seeded schedule. Oracle after every invocation: each file equals the template rendered with that invocation's version and year in every slot (crs_setup_version: all digits of V or the digits of major.minor.patch), all other bytes untouched (a missing final newline may be added); repeating the last invocation is a byte no-op; other files unchanged. Non-trivial = every scenario; distinct = distinct (world, history).",
+		Rule: "scenario = 1-4 .conf / .example files rendered from a template whose marker slots the driver knows (header line in both product spellings, copyright end year in both spellings, ver:'OWASP_CRS/..', SecComponentSignature, tx.crs_setup_version; each 0-n times, two on one line; near-miss lines that are no markers; missing final newline; sometimes one of them a symbolic link to a differently named file inside the root) showing an initial version, x histories of 1-3 invocations with independent versions from the accepted spellings (x.y.z, -rc1, -RC1, -rc.1, v prefix, +build, x.y, -dev, multi-dash) and four-digit years, each under a seeded schedule. Oracle after every invocation: each file equals the template rendered with that invocation's version and year in every slot (crs_setup_version: all digits of V or the digits of major.minor.patch, one and the same reading for the whole history), all other bytes untouched (a missing final newline may be added); repeating the last invocation is a byte no-op; other files unchanged. Non-trivial = every scenario; distinct = distinct (world, history).",
 		Gen:  genC14, Eval: evalC14,
 		QuickChecks: 1000, ThoroughChecks: 20000, Timeout: 20 * time.Second,
 		Assumptions: []string{
